@@ -30,6 +30,7 @@ def resultant_v(terms):
 
 
 SPEC = {
+    "text_fidelity": True,
     "prop_file": "Properties/C04.v",
     "gen": gen,
     "oracle": oracle,
